@@ -243,3 +243,8 @@ func (m *RWMutex) Lock()    { maybeYield(); m.mu.Lock(); maybeYield() }
 func (m *RWMutex) Unlock()  { m.mu.Unlock(); maybeYield() }
 func (m *RWMutex) RLock()   { maybeYield(); m.mu.RLock(); maybeYield() }
 func (m *RWMutex) RUnlock() { m.mu.RUnlock(); maybeYield() }
+
+// Input / Output: concrete (corpus) mode.  Natively Input reads VERIF_INPUT
+// and Output prints a line.
+func Input() string   { return os.Getenv("VERIF_INPUT") }
+func Output(s string) { fmt.Println("ZZOUT " + s) }
